@@ -296,7 +296,37 @@ pub fn c13_case(rng: &mut Rng, _i: u64, st: &mut Stats) -> CaseOutcome {
         let (cfg, kind) = &family[fi];
         let case = || json!({"kind": "c13", "family": family.iter().map(|(c, k)| json!({"kind": k, "cfg": c, "patterns": c.describe()})).collect::<Vec<_>>(), "sequence": seq, "failing_step": step, "inputs": inputs});
         let key = hash_of(cfg);
-        let cached = sut(|| cfg.build_cached());
+        // one step in eight hands the modes over through CLONES of one builder that stays alive:
+        // the clone is built once with all modes but the last (result ignored), then a second clone
+        // gets the last mode added and is built - builders are values, what one clone did must not
+        // show in another
+        let via_clones = cfg.modes.len() >= 2 && !cfg!(miri) && rng.chance(1, 8);
+        let cached = if via_clones {
+            st.count("builds_through_clones_of_a_live_builder");
+            let modes = cfg.to_modes();
+            let k = modes.len() - 1;
+            let mut prefix = cfg.clone();
+            prefix.modes.truncate(k);
+            let pkey = hash_of(&prefix);
+            sut(|| {
+                let base = scnr::ScannerBuilder::new().add_scanner_modes(&modes[..k]);
+                if base.clone().build().is_ok() {
+                    MODEL.with(|m| {
+                        m.borrow_mut().insert(pkey);
+                    });
+                }
+                let full = base.clone().add_scanner_mode(modes[k].clone()).build().map_err(|e| e.to_string());
+                drop(base);
+                full
+            })
+        } else {
+            sut(|| cfg.build_cached())
+        };
+        #[cfg(feature = "hooks")]
+        if via_clones {
+            // the event shape of such a step is not the model's single build: drop its events
+            scnr::verif_hooks::cache_log_take();
+        }
         let uncached = sut(|| cfg.build_uncached());
         let (cached, uncached) = match (cached, uncached) {
             (Err(p), _) => return CaseOutcome::Violated(Violation::new(format!("build() panicked at step {} ({}): {}", step, kind, p), case())),
